@@ -100,11 +100,39 @@ PROPS['C03'] = {
     'design_ref': 'DESIGN.md section 5 C03',
 }
 
+PROPS['C17'] = {
+    'units': ['write'],
+    'title': 'idempotent re-runs; output depends only on the latest inputs (kernel)',
+    'technique': 'Verus contracts on check_write_file and Swift::write_codable_file (extracted verbatim) over a tracked ghost file-system log; '
+                 'history statement as lemmas over the contract',
+    'level_text': 'For every prior state of the output location and every output: identical content => no write at all (modification time preserved); '
+                  'changed non-empty output => on success the file holds exactly the new output, nothing of the earlier content survives; at most one '
+                  'write, only to the output file, all other files untouched; hence re-running is a no-op and the last run wins (lemmas).',
+    'level_note': 'Ghost log with outlined std::fs calls whose contracts are assumed (notably: reading an existing file succeeds); generation being a '
+                  'function of the sources is C06\'s domain; files the last run is not responsible for and the per-crate loops (dyn Language) are not decided.',
+    'design_ref': 'DESIGN.md section 5 C17',
+}
+PROPS['C07'] = {
+    'units': ['rename', 'topo', 'cfg', 'cfg_all', 'merge', 'write'], 'kani': ['kint'],
+    'title': 'never panics or spins (kernel)',
+    'technique': 'panic-freedom (unwrap/index/slice/overflow/callee preconditions) and termination (decreases) obligations of every function put under '
+                 'contract for the other properties, with weakest preconditions (Verus); Kani overflow/cast checks on integer.rs',
+    'level_text': 'Every function under contract in this framework (rename family, rename_all_to_case, get_ident, toposort_impl/inner, sort_by_indices, '
+                  'override_configuration, ParsedData::push/add_assign/is_empty, collect_result, the sort block, check_write_file, write_codable_file, '
+                  'all of integer.rs) is proved free of panics for every input its callers can supply and every loop/recursion is proved to terminate.',
+    'level_note': 'Kernel: sites that need a syn value to reach, text-emitting functions (todo!/panic! in back ends), process-level behaviour (worker '
+                  'panics in the parallel walker, channel deadlock, hangs) are not under contract and are listed as undecided.',
+    'design_ref': 'DESIGN.md section 5 C07',
+    'undecided': ['parser.rs unnamed[0] / first().unwrap() / try_into().unwrap(), rust_types.rs TryFrom<&syn::Type>, visitors.rs (syn values needed)',
+                  'go.rs original[..1], kotlin.rs / swift.rs / scala.rs todo!() for consts, scala.rs panic! without package (text-emitting back ends)',
+                  'process level: worker panic inside the parallel walker, channel dead-lock, hangs (no thread support in either verifier)'],
+}
+
 NOT_APPLICABLE = {k: NA_TEXT for k in ['C01', 'C02', 'C04', 'C05', 'C08', 'C09', 'C10', 'C12', 'C14', 'C15', 'C19']}
 NOT_APPLICABLE.update({k: 'unit not built yet in this round (see DESIGN.md build order)' for k in
-                       ['C07', 'C13', 'C17']})
+                       ['C13']})
 
-ALL_UNITS = ['topo', 'rename', 'cfg', 'cfg_all', 'merge']
+ALL_UNITS = ['topo', 'rename', 'cfg', 'cfg_all', 'merge', 'write']
 ALL_KANI = ['kint']
 
 
